@@ -7,9 +7,21 @@ props = json.load(open(os.path.join(here, "props.json")))
 static = json.load(open(os.path.join(here, "manifest_static.json")))
 all_ids = [json.loads(l)["id"] for l in open(os.path.join(here, "properties.jsonl"))]
 
+# hook commits = commits of /repo that touch nothing but the guarded contract files (<pkg>/verif_contracts.go)
+hooks = []
 try:
-    hooks = subprocess.check_output(
-        ["git", "-C", "/repo", "log", "--format=%H", "--grep=^verif hook"], text=True).split()
+    out = subprocess.check_output(["git", "-C", "/repo", "log", "--format=@%H", "--name-only"], text=True)
+    cur, files = None, []
+    def flush():
+        if cur and files and all(f.endswith("verif_contracts.go") for f in files):
+            hooks.append(cur)
+    for line in out.splitlines():
+        if line.startswith("@"):
+            flush()
+            cur, files = line[1:], []
+        elif line.strip():
+            files.append(line.strip())
+    flush()
 except Exception:
     hooks = []
 
